@@ -313,6 +313,144 @@ func nestedTCP(depth, qsize int, how string) NestedRec {
 	return finishNested(r, cnt)
 }
 
+// obsNested: "a handler OR CALLBACK may itself issue blocking requests": the callback of an observation issues a request on its
+// connection; before that request is answered another notification of the SAME observation arrives. The request completes, and
+// both notifications reach the callback.
+func obsNested(transport string, qsize int) NestedRec {
+	r := NestedRec{Op: "nested", Transport: transport, How: "obs-callback", Depth: 1, QSize: qsize, Dispatch: []disp{}, Log: []string{}, Ev: []int{}}
+	var mu sync.Mutex
+	var seqs []uint32
+	nestedRes := make(chan error, 1)
+	var get func(ctx context.Context, p string) error
+	first := true
+	cb := func(n *pool.Message) {
+		o, _ := n.Observe()
+		mu.Lock()
+		seqs = append(seqs, o)
+		f := first
+		first = false
+		mu.Unlock()
+		if f {
+			ctx, cancel := context.WithTimeout(context.Background(), 2*wd)
+			defer cancel()
+			nestedRes <- get(ctx, "/inner")
+		}
+	}
+	fail := func(what string) NestedRec { r.Watchdog = true; r.Log = append(r.Log, what); return r }
+	if transport == "tcp" {
+		t := conns.NewTCP(func(cfg *tcpclient.Config) { cfg.ReceivedMessageQueueSize = qsize })
+		defer t.Close()
+		get = func(ctx context.Context, p string) error {
+			resp, err := t.CC.Get(ctx, p)
+			if err == nil {
+				t.CC.ReleaseMessage(resp)
+			}
+			return err
+		}
+		off := 0
+		waitFrame := func(pred func(f conns.TFrame) bool) (conns.TFrame, bool) {
+			var got conns.TFrame
+			ok := hooks.WaitFor(wd, func() bool {
+				b := t.Stream.Written(off)
+				frames, rest := conns.Frames(b)
+				off += len(b) - len(rest)
+				for _, f := range frames {
+					if pred(f) {
+						got = f
+						return true
+					}
+				}
+				return false
+			})
+			return got, ok
+		}
+		octx, ocancel := context.WithTimeout(context.Background(), 4*wd)
+		defer ocancel()
+		go func() { _, _ = t.CC.Observe(octx, "/o", cb) }()
+		reg, ok := waitFrame(func(f conns.TFrame) bool {
+			v, err := f.Opts.Observe()
+			return f.Code == int(codes.GET) && err == nil && v == 0
+		})
+		if !ok {
+			return fail("registration not seen")
+		}
+		t.Stream.Feed(conns.Frame(int(codes.Content), reg.Token, message.Options{{ID: message.Observe, Value: []byte{1}}}, []byte("n1")))
+		inner, ok := waitFrame(func(f conns.TFrame) bool { p, _ := f.Opts.Path(); return f.Code == int(codes.GET) && p == "/inner" })
+		if !ok {
+			return fail("the callback's request not seen")
+		}
+		t.Stream.Feed(conns.Frame(int(codes.Content), reg.Token, message.Options{{ID: message.Observe, Value: []byte{2}}}, []byte("n2")))
+		t.Stream.Feed(conns.Frame(int(codes.Content), inner.Token, nil, []byte("nested")))
+	} else {
+		u := conns.NewUDP(func(cfg *udpclient.Config) { cfg.ReceivedMessageQueueSize = qsize; cfg.TransmissionNStart = 4 })
+		defer u.Close()
+		get = func(ctx context.Context, p string) error {
+			resp, err := u.CC.Get(ctx, p)
+			if err == nil {
+				u.CC.ReleaseMessage(resp)
+			}
+			return err
+		}
+		injq := make(chan []byte, 16)
+		go func() {
+			for raw := range injq {
+				_ = u.CC.Process(nil, raw)
+			}
+		}()
+		defer close(injq)
+		seen := 0
+		waitDg := func(pred func(d memnet.Dgram) bool) (memnet.Dgram, bool) {
+			var got memnet.Dgram
+			ok := hooks.WaitFor(wd, func() bool {
+				for _, raw := range u.Sess.Out(seen) {
+					seen++
+					if d, err := memnet.Parse(raw); err == nil && pred(d) {
+						got = d
+						return true
+					}
+				}
+				return false
+			})
+			return got, ok
+		}
+		octx, ocancel := context.WithTimeout(context.Background(), 4*wd)
+		defer ocancel()
+		go func() { _, _ = u.CC.Observe(octx, "/o", cb) }()
+		reg, ok := waitDg(func(d memnet.Dgram) bool {
+			v, err := d.Opts.Observe()
+			return d.Code == int(codes.GET) && err == nil && v == 0
+		})
+		if !ok {
+			return fail("registration not seen")
+		}
+		injq <- memnet.Build(message.Acknowledgement, int(codes.Content), reg.MID, reg.Token, message.Options{{ID: message.Observe, Value: []byte{1}}}, []byte("n1"))
+		inner, ok := waitDg(func(d memnet.Dgram) bool { p, _ := d.Opts.Path(); return d.Code == int(codes.GET) && p == "/inner" })
+		if !ok {
+			return fail("the callback's request not seen")
+		}
+		injq <- memnet.Build(message.Acknowledgement, int(codes.Empty), inner.MID, nil, nil, nil)
+		injq <- memnet.Build(message.NonConfirmable, int(codes.Content), 31000, reg.Token, message.Options{{ID: message.Observe, Value: []byte{2}}}, []byte("n2"))
+		injq <- memnet.Build(message.Confirmable, int(codes.Content), 31001, inner.Token, nil, []byte("nested"))
+	}
+	select {
+	case err := <-nestedRes:
+		if err != nil {
+			r.Log = append(r.Log, "the callback's request failed: "+err.Error())
+			return r
+		}
+	case <-time.After(wd):
+		return fail("watchdog: the callback's request did not return although it was answered")
+	}
+	if !hooks.WaitFor(wd, func() bool { mu.Lock(); defer mu.Unlock(); return len(seqs) == 2 }) {
+		mu.Lock()
+		r.Log = append(r.Log, fmt.Sprintf("notifications delivered: %v, want [1 2]", seqs))
+		mu.Unlock()
+		return r
+	}
+	r.Completed = true
+	return r
+}
+
 // burstUDP: "as long as handlers return without blocking, in arrival order" under load: n non-confirmable requests are handed
 // to the connection back to back by ONE goroutine (as the socket reader does), many more than the receive queue holds; the
 // handler only records their numbers. Every message is dispatched once, in the order it arrived.
@@ -373,6 +511,8 @@ func RunNested(out string) {
 	for k := 0; k < reps; k++ {
 		for _, q := range []int{0, 1, 16} {
 			w.Put(burstUDP(q, 400))
+			w.Put(obsNested("tcp", q))
+			w.Put(obsNested("udp", q))
 			for d := 1; d <= 3; d++ {
 				for _, how := range []string{"con", "non", "blockwise", "lateack", "samemid", "samemid", "samemid", "samemid"} {
 					w.Put(nestedUDP(d, q, how))
